@@ -597,8 +597,23 @@ func intersectRules(c *Ctx, prop string) {
 		case *ast.CallExpr:
 			if f, _ := typeutil.Callee(d.pkg.TypesInfo, s).(*types.Func); f != nil && objName(f) == "sbom.(*Node).Update" && len(s.Args) == 1 {
 				if sel, ok := s.Fun.(*ast.SelectorExpr); ok && objOf(d.pkg, sel.X) == newnode && newnode != nil {
-					// argument derives from a lookup in the second operand's node index
-					ast.Inspect(s.Args[0], func(m ast.Node) bool {
+					// argument derives from a lookup in the second operand's node index (possibly bound
+					// to a local first: other := ni2[id])
+					var argRoot ast.Node = s.Args[0]
+					{
+						defs := singleDefs(d.pkg, d.fd.Body)
+						ast.Inspect(s.Args[0], func(m ast.Node) bool {
+							if id, isId := m.(*ast.Ident); isId {
+								if def, has := defs[objOf(d.pkg, id)]; has {
+									if _, isIx := ast.Unparen(def).(*ast.IndexExpr); isIx {
+										argRoot = def
+									}
+								}
+							}
+							return true
+						})
+					}
+					ast.Inspect(argRoot, func(m ast.Node) bool {
 						if ix, ok := m.(*ast.IndexExpr); ok {
 							if o := originOfIndex(d, baseObj(d, ix.X)); o.kind == "nodes" && o.operand == par {
 								okUpdate = true
